@@ -404,15 +404,29 @@ func traversalGuards(c *Ctx) {
 					okKey := false
 					chain := enclosing(d.fd.Body, as)
 					depthLoops := 0
-					for _, x := range chain {
+					// the depth loop is a counting loop: `for i := 0; i < n; i++` or `for range n`
+					isCounting := func(x ast.Node) bool {
 						if _, isFor := x.(*ast.ForStmt); isFor {
+							return true
+						}
+						if rs, isR := x.(*ast.RangeStmt); isR {
+							if t := d.pkg.TypesInfo.TypeOf(rs.X); t != nil {
+								if b, isB := t.Underlying().(*types.Basic); isB && b.Info()&types.IsInteger != 0 {
+									return true
+								}
+							}
+						}
+						return false
+					}
+					for _, x := range chain {
+						if isCounting(x) {
 							depthLoops++
 						}
 					}
 					var inner *ast.RangeStmt
 					nRanges := 0
 					for _, x := range chain {
-						if rs, isR := x.(*ast.RangeStmt); isR {
+						if rs, isR := x.(*ast.RangeStmt); isR && !isCounting(x) {
 							inner = rs
 							nRanges++
 						}
